@@ -44,8 +44,13 @@ func (_ dimensionSetter) UpdateProperties(po tabular.PropertyOwner) error {
 		height:    cell.Height(),
 	}
 
+	lines := cell.Lines()
+	if dims.height < len(lines) {
+		// an item may declare itself shorter than its text; still show every line
+		dims.height = len(lines)
+	}
 	linesWidths := make([]decoration.WidthString, dims.height)
-	for i, l := range cell.Lines() {
+	for i, l := range lines {
 		linesWidths[i] = decoration.WidthString{
 			S: l,
 			W: length.StringCells(l),
